@@ -468,7 +468,18 @@ type obsCol struct {
 
 // observe reads a frame through ColumnNames/ColumnTypes and the typed views (rows in index order).
 // enumVals: declared value tables by column name (only used to fill the vals component).
+// observePanics: frames the library returned without Err whose cells could not be read (the read panicked)
+var observePanics []string
+
 func observe(qf qframe.QFrame, enumVals map[string][]string) (cols []obsCol, floats []float64, ok bool) {
+	defer func() {
+		if p := recover(); p != nil {
+			ok = false
+			if len(observePanics) < 20 {
+				observePanics = append(observePanics, fmt.Sprintf("reading the cells of a returned frame (%d rows, columns %v) panicked: %v", qf.Len(), qf.ColumnNames(), p))
+			}
+		}
+	}()
 	names := qf.ColumnNames()
 	types := qf.ColumnTypes()
 	for i, name := range names {
@@ -1254,6 +1265,9 @@ func main() {
 	familyRound(s, r.Fork(), n/5, thorough)
 	familyLong(s, r.Fork(), n/50)
 	familyBigRound(s, r.Fork(), 4+n/1000)
+	for _, p := range observePanics {
+		s.Fail(s.NextID(), p, map[string]interface{}{"family": "observation", "props": []string{"C12", "C13"}}, "csv-observe-panic")
+	}
 	s.Finish()
 }
 
